@@ -175,6 +175,8 @@ class Gen:
 
     def field_names(self, k, allow_raw):
         rng, names = self.rng, []
+        if getattr(self, "names_override", None):
+            return [(n, False) for n in self.names_override[:k]]
         used = set()
         while len(names) < k:
             style = rng.random()
@@ -426,6 +428,20 @@ def gen_corpus(ck, rows):
             kind = rng.choice(["type", "custom", "error"])
             d = g.decl(kind, "enum" if kind == "error" else "struct", pool, allow_raw=True)
         bins.append({"name": "c16r%d" % k, "decls": [d["id"]], "ifaces": [], "isolated": True})
+    # field names that meet the names the derives invent for their own statics (one static per field, named
+    # after the field in upper case, next to a slice called FIELD_REFS): a field called `refs`, two fields
+    # that differ only in case; one declaration per binary
+    k = 0
+    for names in (["refs", "count"], ["id", "ID"], ["field_refs", "Refs"]):
+        for kind in ("type", "custom", "error"):
+            g.names_override = names
+            d = g.decl(kind, "enum" if kind == "error" else "struct", [], nfields=2)
+            g.names_override = None
+            if kind == "error" and not any(v.get("fields") for v in d["variants"]):
+                g.decls.pop()
+                continue
+            bins.append({"name": "c16h%d" % k, "decls": [d["id"]], "ifaces": [], "isolated": True})
+            k += 1
     # interfaces assembled from derived descriptions
     byid = {d["id"]: d for d in g.decls}
     for b in bins:
